@@ -553,6 +553,9 @@ where
         }}"
         );
 
+        #[cfg(feature = "fuellabs_sway_verif")]
+        crate::verif_hooks::entry::dump_contract_entry_source(&code);
+
         let entry_fn = self.parse_fn_to_ty_ast_node(
             engines,
             original_source_id,
